@@ -37,6 +37,10 @@ def run(ctx):
     ctx.step(c16.noexcept_rule, ctx, "C20.noexcept")
     ctx.step(noexcept_user, ctx)
     ctx.step(c06.capture, ctx, "C20.deferred")
+    # recovery code (catch handlers included: they run with the locks taken before the try still held) never calls back
+    # into an operation that blocks on a mutex the function already owns
+    ctx.step(single_step, ctx)
+    ctx.step(common.lock_order, ctx, "C20.selflock", scope_pred=lambda f: common.in_files(f, FILES), floor=20)
 
 
 def is_user_call(f, st):
@@ -117,3 +121,47 @@ def noexcept_user(ctx):
             bad = "%s at %s may throw" % (c.get("qname", "?")[:80], f.loc(st))
             break
         ctx.ob(rid, bad is None, f.where, "noexcept %s cannot be left by an exception" % f.name, bad or "", fn=f.label, inst=f.qname)
+
+
+REPLACERS = ["gmlc::libguarded::guarded", "gmlc::libguarded::guarded_opt", "gmlc::libguarded::ordered_guarded",
+             "gmlc::libguarded::atomic_guarded"]
+
+
+def single_step(ctx):
+    """store() / operator= replace the payload with ONE user operation (the payload's own assignment): if it throws,
+    the object is in whatever state that single assignment leaves, never in a state the wrapper composed from several
+    steps (std::swap is three user operations; a throw in the middle leaves a moved-from payload behind)"""
+    from ..guards import field_refs, effective_access, READ_KINDS
+    rid = "C20.single-step"
+    ctx.rule(rid, "store / operator= of the value wrappers modify the payload by exactly one assignment", floor=8)
+    fb, eng = ctx.fb, ctx.eng
+    for cls in REPLACERS:
+        for f in fb.functions(rec=cls):
+            if f.name not in ("store", "operator="):
+                continue
+            muts = []
+            for st in field_refs(f, cls):
+                if st["m"]["name"] != "m_obj":
+                    continue
+                acc, user = effective_access(eng, f, st)
+                if acc in READ_KINDS:
+                    continue
+                is_assign = user is not None and ((user["k"] == "CXXOperatorCallExpr" and user.get("op") == "=") or
+                                                  (user["k"] == "BinaryOperator" and user.get("op") == "="))
+                muts.append((st, acc, user, is_assign))
+            delegated = [c for c in f.stmts.values() if c["k"] == "CXXMemberCallExpr" and (c.get("callee") or {}).get("name") in ("store", "operator=")
+                         and path(f, f.s(c["obj"])) in ("this", "*this")]
+            if not muts and delegated:
+                ctx.ob(rid, len(delegated) == 1, f.where, "%s::%s forwards to one replacing operation" % (cls.split("::")[-1], f.name),
+                       "", fn=f.label, inst=f.qname)
+                continue
+            # at most one modification on any path (an unlocked arm for disabled locking next to the locked one is fine)
+            seq = [(a, b) for a in muts for b in muts if a is not b and f.pos_of(a[0]) and f.pos_of(b[0]) and
+                   f.reach_avoiding(f.pos_of(a[0]), f.pos_of(b[0]), [])]
+            ok = len(muts) >= 1 and all(m[3] for m in muts) and not seq
+            what = ""
+            if not ok:
+                what = "; ".join("%s at %s" % ((m[2] or {}).get("callee", {}).get("fq") or (m[2] or {}).get("k") or m[1], f.loc(m[0])) for m in muts) or "no modification found"
+            ctx.ob(rid, ok, f.where, "%s::%s changes m_obj through a single assignment" % (cls.split("::")[-1], f.name),
+                   "" if ok else "payload modified by: %s - a throw between the steps leaves a value that is neither the old nor "
+                   "the new one" % what, fn=f.label, inst=f.qname)
